@@ -352,4 +352,9 @@ MUTANTS = [
     B("c08.1-twin-buffer-after-cdc", "C08", ADF, "        self.submodules += stream.Pipeline(port_from.cmd, cmd_cdc, port_to.cmd)", "        cmd_buf = ClockDomainsRenamer(port_to.clock_domain)(stream.Buffer([(\"we\", 1), (\"addr\", address_width)]))\n        self.submodules += cmd_buf\n        self.submodules += stream.Pipeline(port_from.cmd, cmd_cdc, cmd_buf, port_to.cmd)"),
     M("c08.1-buffer-wrong-domain", "C08", "C08.1", ADF, "        self.submodules += stream.Pipeline(port_from.cmd, cmd_cdc, port_to.cmd)", "        cmd_buf = ClockDomainsRenamer(port_from.clock_domain)(stream.Buffer([(\"we\", 1), (\"addr\", address_width)]))\n        self.submodules += cmd_buf\n        self.submodules += stream.Pipeline(port_from.cmd, cmd_cdc, cmd_buf, port_to.cmd)"),
     M("c08.6-depth-halved", "C08", "C08.6", ADF, "            depth   = cmd_depth,", "            depth   = max(2, cmd_depth//2),"),
+    M("c20.6-span", "C20", "C20.6", "litedram/phy/lpddr4/basephy.py", "            cmd_nphases_span = 4,", "            cmd_nphases_span = 2,"),
+    M("c20.6-adapter-order", "C20", "C20.6", "litedram/phy/lpddr4/basephy.py", "adapters = [DFIPhaseAdapter(phase, masked_write=masked_write) for phase in self.dfi.phases]", "adapters = [DFIPhaseAdapter(phase, masked_write=masked_write) for phase in reversed(self.dfi.phases)]"),
+    M("c20.6-pad-lines", "C20", "C20.6", "litedram/phy/lpddr4/basephy.py", "            self.comb += self.out.ca[bit].eq(self.commands.ca[bit])", "            self.comb += self.out.ca[bit].eq(self.commands.ca[5 - bit])"),
+    M("c20.7-pad-priority", "C20", "C20.7", "litedram/phy/lpddr5/basephy.py", "            return If(cmd_buf.source.valid, # cmd2 stored in the previous cycle\n                out.eq(cmd2)\n            ).Elif(self.adapter.valid, # cmd1 on DFI (note: there is no cmd2 from prev cycle)\n                out.eq(cmd1)", "            return If(self.adapter.valid,\n                out.eq(cmd1)\n            ).Elif(cmd_buf.source.valid,\n                out.eq(cmd2)"),
+    M("c20.7-payload", "C20", "C20.7", "litedram/phy/lpddr5/basephy.py", "cmd_buf.sink.ca_n.eq(self.adapter.cmd2.ca[1]),", "cmd_buf.sink.ca_n.eq(self.adapter.cmd2.ca[0]),"),
 ]
